@@ -64,6 +64,31 @@ def programs(tier: str):
                     },
                     "cancels": cancels,
                 }
+    # states yielded as a non-sequence iterable (generator, dict view)
+    for y in ("gen", "values"):
+        for other in (None, {"enter": "ok", "exit": "ok", "yields": "one"}):
+            disp = [{"enter": "ok", "exit": "ok", "yields": y}] + ([dict(other)] if other else [])
+            yield {"block": {"kind": "ascope", "supply": [], "disp": disp, "pause": False, "ending": "return"}, "cancels": 0}
+    # distinct disposables that compare equal ("twins"): one fails / is still entering when the
+    # scope is cancelled, the other one entered - only the entered one is exited
+    for first in MODES:
+        for second in MODES:
+            if first == "ok" and second == "ok":
+                continue
+            for ending, cancels in bodies:
+                yield {
+                    "block": {
+                        "kind": "ascope",
+                        "supply": [],
+                        "disp": [
+                            {"enter": first, "exit": "ok", "yields": "none", "twin": True},
+                            {"enter": second, "exit": "ok", "yields": "none", "twin": True},
+                        ],
+                        "pause": bool(cancels),
+                        "ending": ending,
+                    },
+                    "cancels": cancels,
+                }
     # a clean-up that fails with a BaseException which is not an Exception
     for other in ("ok", "raise", "susp_ok"):
         for ending, cancels in bodies:
